@@ -613,6 +613,11 @@ func loaderCorpus(m map[string]string) error {
 			if rnd.Intn(3) == 0 {
 				lines = append(append(append([]string{}, lines[:li]...), []string{" \t\n", "\t \n", " \t// c\n"}[rnd.Intn(3)]), lines[li:]...)
 				mut = "blank-mixed-line"
+			} else if cands := sameWidthMixCandidates(lines); len(cands) > 0 && rnd.Intn(2) == 0 {
+				// a mixed indentation of exactly the SAME width as the consistent one it replaces (a tab
+				// counts as 8), e.g. on a line that merely continues an open block
+				li = cands[rnd.Intn(len(cands))]
+				lines[li] = sameWidthMix(lines[li])
 			} else {
 				lines[li] = []string{"\t ", " \t", "    \t", "\t    "}[rnd.Intn(4)] + strings.TrimLeft(lines[li], " \t")
 			}
@@ -649,4 +654,43 @@ func loaderCorpus(m map[string]string) error {
 		}
 	}
 	return w.Close()
+}
+
+// indentWidth returns the leading whitespace of a line and its width (a tab counts as 8).
+func indentWidth(line string) (ws string, width int) {
+	body := strings.TrimLeft(line, " \t")
+	ws = line[:len(line)-len(body)]
+	for _, c := range ws {
+		if c == '\t' {
+			width += 8
+		} else {
+			width++
+		}
+	}
+	return ws, width
+}
+
+// sameWidthMixCandidates: content lines indented consistently (only tabs or only spaces) by more
+// than 8 columns, so that an equally wide indentation mixing tabs and spaces exists.
+func sameWidthMixCandidates(lines []string) []int {
+	var res []int
+	for i, l := range lines {
+		ws, w := indentWidth(l)
+		if strings.TrimSpace(l) == "" || strings.HasPrefix(strings.TrimSpace(l), "//") {
+			continue
+		}
+		if w > 8 && (strings.Count(ws, "\t") == 0 || strings.Count(ws, " ") == 0) {
+			res = append(res, i)
+		}
+	}
+	return res
+}
+
+func sameWidthMix(line string) string {
+	ws, w := indentWidth(line)
+	body := line[len(ws):]
+	if strings.Contains(ws, "\t") { // k tabs, k >= 2: k-1 tabs and 8 spaces
+		return strings.Repeat("\t", w/8-1) + strings.Repeat(" ", 8) + body
+	}
+	return "\t" + strings.Repeat(" ", w-8) + body // w > 8 spaces: one tab and the rest
 }
